@@ -190,6 +190,10 @@ def check_selection(ctx, wfs, circle, rng, n):
         nf = int(rng.integers(1, 4))
         dt = [np.float64, np.float32, np.int32, np.complex128][int(rng.integers(0, 4))]
         data = (rng.standard_normal((nf, 2, ns)) * 100).astype(dt)
+        lay = int(rng.integers(0, 4))
+        sm = [sm, np.asfortranarray(sm), np.ascontiguousarray(sm.T).T, np.rot90(sm).copy(order="F")][lay] if nx > 1 else sm
+        ns = int(sm.sum())
+        data = data[:, :, :ns]
         out = pure_call(ctx, "make_subaps_2d", wfs.make_subaps_2d, data, sm)
         ctx.case("scatter_gather", key=(nx, ns, nf, str(dt), it), nontrivial=0 < ns < nx * nx)
         w2 = {"mask": sm.tolist(), "frames": nf, "dtype": str(dt)}
